@@ -339,6 +339,7 @@ Theorem subscription_match_agrees : forall r d0 margs mkw oracle t,
     (r, MYield [ids_value (map (fun p => sub_id (fst p)) (matching_subs (r_broker r) t))] [], None) /\
     forall pub req opts args kw,
       valid_uri (c_strict (r_cfg r)) "" t = true ->
+      publish_aborts (r_cfg r) pub opts t = false ->
       opt_bool opts "disclose_me" && negb (c_disclose (r_cfg r)) = false ->
       snd (publish (r_cfg r) (lookup r) (r_now r) (r_broker r) (r_pubgen r) pub req opts t args kw) =
       pub_events (lookup r) pub (r_pubgen r + 1) opts t args kw (matching_subs (r_broker r) t)
